@@ -194,3 +194,86 @@ package server
 //@ requires batch != nil && value != nil && forall i int :: 0 <= i && i < len(value.SecondaryIndexes) ==> value.SecondaryIndexes[i] != nil
 //@ ensures err == nil ==> forall k string :: ghset(present, batch, k) <==> (old(ghset(present, batch, k)) && !exists i int :: 0 <= i && i < len(value.SecondaryIndexes) && k == idxKey(key, value.SecondaryIndexes[i].IndexName, value.SecondaryIndexes[i].SecondaryKey))
 //@ modifies ghset(present, batch)
+
+// ---------------------------------------------------------------- follower (C03, C04)
+
+// Closing the replication stream touches the stream bookkeeping only.
+//@ func followerController.closeStreamNoMutex
+//@ trusted
+//@ modifies fc.closeStreamWg
+//@ note trusted: signals a wait group / cancels a context
+
+// append (one replicated entry): nothing is accepted on behalf of another term than the
+// follower's current one; the term itself does not change; and an acknowledgement is
+// sent from here (the duplicate-delivery shortcut) only for an offset that is already
+// synced — every other ack is sent by the sync routine after wal.Sync.
+//
+//@ func followerController.append(fc, req, stream) (err)
+//@ property C03 C04
+//@ requires fc.wal != nil && walInv(as(fc.wal, *wal.wal)) && fc.log != nil && fc.writeLatencyHisto != nil && fc.syncCond != nil
+//@ requires req != nil && req.Entry != nil && req.Entry.Offset < 4611686018427387903 && stream != nil
+//@ requires fc.lastAppendedOffset <= as(fc.wal, *wal.wal).lastAppendedOffset.v
+//@ assert at call Send#0: req.Entry.Offset <= fc.wal.LastOffset()
+//@ ensures fc.term == old(fc.term)
+//@ ensures req.Term != old(fc.term) ==> err != nil && fc.lastAppendedOffset == old(fc.lastAppendedOffset) && as(fc.wal, *wal.wal).lastAppendedOffset.v == old(as(fc.wal, *wal.wal).lastAppendedOffset.v)
+//@ ensures err == nil ==> fc.lastAppendedOffset >= old(fc.lastAppendedOffset)
+//@ ensures fc.lastAppendedOffset <= as(fc.wal, *wal.wal).lastAppendedOffset.v
+//@ modifies *
+
+//@ func followerController.isClosed
+//@ trusted
+//@ pure
+//@ nondet
+
+//@ func followerController.setLogger
+//@ trusted
+//@ modifies fc.log
+//@ ensures fc.log != nil
+
+//@ func getLastEntryIdInWal(walObject) (id, err)
+//@ trusted
+//@ modifies nothing
+//@ ensures err == nil ==> id != nil
+//@ note trusted: reads the last entry through a reverse reader (readers are verified in C09; the entry id is the term/offset stored in that entry)
+
+// NewTerm on a follower: the term never decreases; a request for a lower term changes
+// nothing; the new term is stored in the database before it is published in memory,
+// and on success the node is fenced in exactly the requested term.
+//
+//@ func followerController.NewTerm(fc, req) (res, err)
+//@ property C04 C05
+//@ requires req != nil && fc.wal != nil && fc.log != nil && fc.ctx != nil
+//@ assert at call setLogger#0: fc.db != nil && ghost(dbTerm, fc.db) == req.Term && fc.term == req.Term
+//@ ensures fc.term >= old(fc.term)
+//@ ensures req.Term < old(fc.term) ==> err != nil && fc.term == old(fc.term) && fc.status == old(fc.status) && fc.db == old(fc.db)
+//@ ensures err == nil ==> res != nil && fc.term == req.Term && fc.status == 1
+//@ ensures fc.term != old(fc.term) ==> fc.term == req.Term && ghost(dbTerm, fc.db) == req.Term
+//@ modifies *
+
+// Truncate: only a node fenced in exactly the request's term truncates its log; the
+// term does not change.
+//
+//@ func followerController.Truncate(fc, req) (res, err)
+//@ property C04 C03
+//@ requires req != nil && req.HeadEntryId != nil && req.HeadEntryId.Offset >= -1 && fc.wal != nil && walInv(as(fc.wal, *wal.wal)) && fc.ctx != nil
+//@ ensures fc.term == old(fc.term)
+//@ ensures err == nil ==> old(fc.status) == 1 && req.Term == fc.term && res != nil && res.HeadEntryId != nil && res.HeadEntryId.Term == req.Term && res.HeadEntryId.Offset == as(fc.wal, *wal.wal).lastSyncedOffset.v && fc.lastAppendedOffset == res.HeadEntryId.Offset
+//@ ensures (old(fc.status) != 1 || req.Term != old(fc.term)) ==> err != nil && as(fc.wal, *wal.wal).lastAppendedOffset.v == old(as(fc.wal, *wal.wal).lastAppendedOffset.v) && fc.status == old(fc.status)
+//@ modifies *
+
+//@ func followerController.closeStream
+//@ trusted
+//@ modifies fc.closeStreamWg
+//@ note trusted: takes the lock and closes the stream bookkeeping
+
+// Receiving a snapshot: a node that knows its term (it is not -1) accepts chunks of
+// exactly that term only, so a snapshot stream of a superseded leader can never lower
+// the term; a node without a term adopts the term of the chunks.
+//
+//@ func followerController.readSnapshotStream(fc, stream, loader) (size, err)
+//@ property C04 C05
+//@ requires stream != nil && loader != nil && fc.log != nil
+//@ loop 0 invariant old(fc.term) != -1 ==> fc.term == old(fc.term)
+//@ loop 0 modifies fc.term, fc.closeStreamWg, fresh
+//@ ensures old(fc.term) != -1 ==> fc.term == old(fc.term)
+//@ modifies fc.term, fc.closeStreamWg
